@@ -100,6 +100,9 @@ def shards(tier):
     if tier == 'quick':
         for n in (2, 3):
             out.append(_shard(n, Q_ALPHA, 1, 'alphabet6', False, 400000, validate_every=97))
+        # one long-stall graph (n = 2, alphabet {00, FF}, stalls <= 8 bit periods): the smallest graph that reaches the
+        # listed known finding F-C17-1, so that the quick tier reports it on every run (and any other loss at long stalls)
+        out.append(_shard(2, [0x00, 0xFF], 8, 'sweep256', True, 400000))
         return out
     for n in (2, 3, 4, 5, 6, 8):
         # (a) arbitrary sequences over the 16-value alphabet, short stalls
@@ -124,7 +127,8 @@ def cost(d):
 BOUNDS = {
     'quick': 'n in {2, 3} (4 and 6 system clocks per bit); all sequences over the alphabet {00, FF, 55, AA, 01, 80} with any '
              'idle gaps incl. none; consumer stalls of at most one bit period once a byte is pending, unconstrained otherwise; '
-             '<= 2 bytes outstanding; reachable product graph closed, full state key',
+             '<= 2 bytes outstanding; reachable product graph closed, full state key; plus one graph at n = 2 over {00, FF} with stalls '
+             '<= 8 bit periods',
     'thorough': 'n in {2, 3, 4, 5, 6, 8}: (a) all sequences over the 16-value alphabet (single-bit bytes, 00, FF, 55, AA, 0F, F0, '
                 '7E, 81) with stalls <= 1 bit period; (b) stalls <= 8 bit periods: all sequences over the 6-value quick alphabet for '
                 'n <= 4, all sequences over each of the 15 two-value sub-alphabets of it for n in {5, 6, 8}; (c) at n = 2 all 256 '
